@@ -21,7 +21,7 @@ worker() {
     cd /root/par/$k/verif
     VERIF_WATCHDOG_S=900 VERIF_SCRATCH=/root/par/$k timeout 1800 ./check $chk quick > /root/par/$k/out.log 2>&1; rc=$?
     echo "$label [$chk] rc=$rc $(grep -c '^VIOLATION' /root/par/$k/out.log) VIOLATION lines; $(grep 'violating observations' /root/par/$k/out.log | cut -c1-160)" >> $OUT
-    cd /root/par/$k/repo && git checkout -q -- . && git clean -fdq
+    cp /root/par/$k/out.log /root/parlog-$label.log 2>/dev/null; cd /root/par/$k/repo && git checkout -q -- . && git clean -fdq
   done
 }
 split -n l/$K -d $LIST /root/par/list.
